@@ -25,6 +25,8 @@ func runC18(c *Ctx) {
 	runC18LwsLeaderReady(c)
 	runC18LabelPrecedence(c)
 	runC18GroupBeforeAssignment(c)
+	runC18NoPatchOnlyWhenBothMatch(c)
+	runC18ForeignMapsMerged(c)
 	runC18OwnerIdentity(c)
 	runC18Wiring(c)
 	runC18LookupErrors(c)
@@ -846,4 +848,84 @@ func succeededBefore(fx *Facts, fn *ssa.Function, site ssa.Instruction, isStep f
 		}
 	}
 	return steps > 0, "no such step"
+}
+
+// runC18NoPatchOnlyWhenBothMatch (O14): the pod's assignment (pod-group annotation AND sub-group label) is a function of
+// the workload: assignPodToGroupAndSubGroup may leave the pod unpatched only where it has established that the pod's
+// annotation equals the computed PodGroup's name and its sub-group label equals the computed sub group. An early
+// "already annotated" return freezes the sub-group label at whatever the first reconcile computed.
+func runC18NoPatchOnlyWhenBothMatch(c *Ctx) {
+	f := c.Anchor("O14", "pkg/podgrouper", "PodReconciler", "assignPodToGroupAndSubGroup")
+	if f == nil {
+		return
+	}
+	eqOf := func(fs FactSet, field string) bool {
+		_, ok := fs.find(func(ft Fact) bool {
+			t := ft.T
+			if t.Op != "bin" || len(t.Args) != 2 || (t.Name == "==") != ft.Pol {
+				return false
+			}
+			return strings.Contains(t.Args[0].String(), field) || strings.Contains(t.Args[1].String(), field)
+		})
+		return ok
+	}
+	both := func(fs FactSet) bool { return eqOf(fs, ".Annotations") && eqOf(fs, ".Labels") }
+	n := 0
+	for _, b := range f.Blocks {
+		ret, ok := b.Instrs[len(b.Instrs)-1].(*ssa.Return)
+		if !ok || len(ret.Results) != 1 {
+			continue
+		}
+		k, isK := ret.Results[0].(*ssa.Const)
+		if !isK || !k.IsNil() {
+			continue
+		}
+		// a nil return that no Patch precedes
+		if _, _, unpatched := reachAvoiding([]cfgPos{entryPos(f)}, func(in ssa.Instruction) bool { return in == ssa.Instruction(ret) }, c.P.performs(isInvokeNamed("Patch", "Update"), 2), nil); !unpatched {
+			continue
+		}
+		n++
+		c.Check(c.Fx.allPathsSatisfy(ret, both), "O14", "RET", funcKey(f)+": the pod is left unpatched only when annotation and sub-group label both match", instrPos(ret), "annotation == PodGroup name ∧ label == sub group",
+			"the pod can be left as it is although only one of its pod-group annotation and its sub-group label matches the computed assignment: the other stays at what an earlier reconcile computed, so the pod's assignment depends on the reconcile history")
+	}
+	c.Floor("O14", "RET unpatched exits of assignPodToGroupAndSubGroup", n, 1)
+}
+
+// runC18ForeignMapsMerged (O15): annotations and labels of a stored PodGroup are shared with other actors (the
+// scheduler's last-start and stale timestamps, user labels): updatePodGroup merges the computed keys into the stored
+// map, it never replaces the map. Decided: the value stored into oldPodGroup.Annotations / .Labels is computed from
+// BOTH the new and the old object's field of the same name.
+func runC18ForeignMapsMerged(c *Ctx) {
+	f := c.Anchor("O15", pkgPGHandler, "", "updatePodGroup")
+	if f == nil {
+		return
+	}
+	n := 0
+	for _, in := range instrsIn(f, func(in ssa.Instruction) bool { _, ok := in.(*ssa.Store); return ok }) {
+		st := in.(*ssa.Store)
+		fa, ok := st.Addr.(*ssa.FieldAddr)
+		if !ok || rootParam(termOf(fa)) != 0 {
+			continue
+		}
+		fld := termOf(fa).lastField()
+		if fld != "Annotations" && fld != "Labels" {
+			continue
+		}
+		n++
+		fromOld, fromNew := false, false
+		termOf(st.Val).contains(func(x *Term) bool {
+			if x.lastField() == fld {
+				switch rootParam(x) {
+				case 0:
+					fromOld = true
+				case 1:
+					fromNew = true
+				}
+			}
+			return false
+		})
+		c.Check(fromOld && fromNew, "O15", "FIELDS", funcKey(f)+": "+fld+" of the stored PodGroup are merged, not replaced", instrPos(in), "computed from old."+fld+" and new."+fld,
+			"the stored PodGroup's "+fld+" are replaced by the computed ones: keys written by other actors (the scheduler's last-start / stale timestamps, user labels) are wiped by the next update")
+	}
+	c.Floor("O15", "FIELDS shared maps of the stored PodGroup", n, 2)
 }
